@@ -34,7 +34,10 @@ pub fn corpus() -> Vec<String> {
     if let Some(extra) = extra_sources_dir() {
         let mut more = Vec::new();
         walk(&extra, &mut more);
-        all.extend(more.into_iter().map(|p| p.to_string_lossy().to_string()));
+        all.extend(
+            more.into_iter()
+                .filter_map(|p| p.strip_prefix(&extra).ok().map(|r| format!("extra:{}", r.to_string_lossy()))),
+        );
     }
     all
 }
